@@ -301,6 +301,43 @@ theorem processSection_create_backup (H : CreateSectionB o fmt s p patch0 patch2
     · generalize s.tty = t
       cases t <;> simp
 
+/-- **… when a regular file or a symbolic link sits at the backup name**: it is unlinked first; the tree afterwards is the same as
+    when nothing was there -/
+theorem processSection_create_backup_taken (H : CreateSectionB o fmt s p patch0 patch2 info par1 par2 r)
+    (hb : o.saveBackup = true) (hreal : o.dryRun = false)
+    (hdirs : DirsThere s.fs p) (hparent : s.fs.dirExists (parentOf p) = true)
+    (hnot : s.backedUp.contains (backupName o p) = false)
+    (hbdirs : DirsThere s.fs (backupName o p)) (hbdir : s.fs.dirExists (parentOf (backupName o p)) = true)
+    {n : Node} (hl : s.fs.lookup (backupName o p) = some n) (hn : InWay n) :
+    ∃ s', (processSection o fmt).run s = (.ok true, s') ∧
+      s'.fs = (s.fs.set (backupName o p) (.file [] (0o666 - (0o666 &&& s.fs.umask)))).set p
+        (.file (render o.newlineOutput r.out) (0o666 - (0o666 &&& s.fs.umask))) ∧
+      s'.trace = s.trace ++ [.tmpCreate, .tmpUnlink] ++ [.tmpCreate, .tmpUnlink] ++
+        [.unlink (backupName o p), .creat (backupName o p)] ++ writeOps p (render o.newlineOutput r.out) ∧
+      s'.backedUp = s.backedUp ++ [backupName o p] ∧
+      s'.rejWritten = s.rejWritten ∧
+      s'.hadFailure = s.hadFailure ∧ s'.out = s.out ++ [.file p false] ∧
+      SectionEnd s s' p par2 := by
+  rcases H.target with hname | ⟨hno, hne0, hguess⟩
+  · createb_run [hname, hb, hreal, (fun s' => @run_ensureParentDirs_there s' p H.pathNe), hdirs,
+      (fun s' pt c perm => @run_writePatchedResult_create_backup_taken s' p n o pt c perm H.pathNe hn), hparent, hnot, hbdirs,
+      hbdir, hl]
+    refine ⟨_, rfl, rfl, ?_, rfl, rfl, rfl, ?_, ⟨rfl, rfl, rfl, ?_, (by first | rfl | exact H.cwd.symm),
+      (by first | rfl | exact H.noFault.symm), rfl, rfl, rfl, rfl⟩⟩
+    · simp
+    · simp
+    · generalize s.tty = t
+      cases t <;> simp
+  · createb_run [hno, hne0, hguess, hb, hreal, (fun s' => @run_ensureParentDirs_there s' p H.pathNe), hdirs,
+      (fun s' pt c perm => @run_writePatchedResult_create_backup_taken s' p n o pt c perm H.pathNe hn), hparent, hnot, hbdirs,
+      hbdir, hl]
+    refine ⟨_, rfl, rfl, ?_, rfl, rfl, rfl, ?_, ⟨rfl, rfl, rfl, ?_, (by first | rfl | exact H.cwd.symm),
+      (by first | rfl | exact H.noFault.symm), rfl, rfl, rfl, rfl⟩⟩
+    · simp
+    · simp
+    · generalize s.tty = t
+      cases t <;> simp
+
 /-- **the same section under --dry-run, with or without `-b`**: the tree and the trace (apart from the temporaries) are untouched,
     no backup is recorded -/
 theorem processSection_create_backup_dry (H : CreateSectionB o fmt s p patch0 patch2 info par1 par2 r) (hdry : o.dryRun = true) :
